@@ -14,6 +14,12 @@ CLAIMED = {
             "the model is re-run from the real pre-state on every generated step and compared inside the C01 footprint "
             "(value, notional, weight, position, rows, flags); a monitor recomputes the identity from public getters at recorded observation points.",
             "DESIGN 7 C01"),
+    "C05": ("30 theorems about the model of SecurityBase.allocate (allocQ0, sizeLoop with the code's 10^4 cap as fuel, allocQuantity, secAllocate): zero amount / bad price / "
+            "close-out, exit characterisation of the sizing search for every fuel and outlay function, integrality and maximality under a strictly monotone outlay, "
+            "fractional exactness, budget with the isclose tolerance, no-raise for flat-fee and fractional per-unit/proportional costs (partial), and Lean witnesses over Q of "
+            "the inputs on which the current code breaks the budget rule (known findings) or raises; every allocate of a dense generated sweep is re-executed by the model from "
+            "the real pre-state (bit-exact) and a monitor checks budget, maximality, close-out, zero and refusal on the real objects.",
+            "DESIGN 7 C05"),
 }
 # pid -> reason it is not claimed (yet)
 NOT_YET = {}
